@@ -84,7 +84,7 @@ int gettimeofday(struct timeval *tv, void *tz) { (void)tz; tv->tv_sec = (long)(n
 simtime_t nondet_delta(void);
 bool nondet_bool(void);
 unsigned nondet_uint(void);
-static bool pred_now[NL];
+static bool pred_now[NL], ever_true[NL];
 static void stub_dispatcher(lp_id_t me, simtime_t now, unsigned type, const void *content, unsigned size, void *st)
 {
 	(void)size; (void)st;
@@ -117,7 +117,14 @@ static void stub_dispatcher(lp_id_t me, simtime_t now, unsigned type, const void
 	if(me < NL)
 		pred_now[me] = nondet_bool();
 }
-static bool stub_committed(lp_id_t me, const void *s) { (void)s; return me < NL ? pred_now[me] : false; }
+static bool stub_committed(lp_id_t me, const void *s)
+{
+	(void)s;
+	bool r = me < NL ? pred_now[me] : false;
+	if(r && me < NL)
+		ever_true[me] = true;
+	return r;
+}
 
 static bool before(const struct lp_msg *a, const struct lp_msg *b) { return msg_is_before(a, b); }
 static bool heap_ok(void)
@@ -141,7 +148,7 @@ static void env_reset(unsigned n_lps)
 	for(unsigned k = 0; k < NE + NL + 2; k++)
 		freed_cnt[k] = disp_cnt[k] = 0;
 	for(unsigned k = 0; k < NL; k++)
-		init_calls[k] = fini_calls[k] = other_calls[k] = 0, pred_now[k] = false;
+		init_calls[k] = fini_calls[k] = other_calls[k] = 0, pred_now[k] = false, ever_true[k] = false;
 	n_msgs = n_freed = n_disp = gvt_calls = fini_before_init = 0;
 	root_changed = false;
 	global_config.dispatcher = stub_dispatcher;
@@ -240,6 +247,11 @@ void h_run(void)
 			if(k < n_msgs && in_heap(M[k]) && !disp_cnt[k])
 				VASSERT(!before(M[k], M[disp_log[n_disp - 1]]), "C10.run no pending event precedes a delivered one");
 	(void)initial;
+	/* stop condition: with events still pending and the time limit not reached, the run may stop only when the
+	 * predicate of EVERY LP has held at some delivered event (including one with timestamp 0) */
+	if(heap_count(queue) > 0 && n_disp > 0 && M[disp_log[n_disp - 1]]->dest_t < term_time)
+		for(unsigned k = 0; k < NL; k++)
+			VASSERT(ever_true[k], "C10.run the run stops before the time limit only when every LP's predicate has held");
 	VCANARY("h_run reachable");
 	VCOVER(n_disp >= 3, "h_run covers three deliveries");
 }
